@@ -646,7 +646,7 @@ agents: {queue: deploy}
 `, map[string]string{"P": "pv", "QQ": "qv", "A": "shadowed-by-step", "node_env": "prod", "env::x": "colons", "e": "1"}, "git@github.com:org/repo.git"},
 	{"anon-matrix", `
 command: test
-plugins: [cache#v2]
+plugins: [cache#v2, "acme/cache#fix/restore-keys"]
 matrix: [a, b]
 env: {}
 `, map[string]string{"DEPLOY": "1"}, "repo"},
